@@ -15,7 +15,7 @@ Proof. exact handles_are_declared_ranges. Qed.
 Print Assumptions C08_handles_are_declared_ranges.
 
 Theorem C08_all_states_probed :
-  Datatypes.length gen_bounds = 133.
+  Datatypes.length gen_bounds = 161.
 Proof. exact all_states_probed. Qed.
 Print Assumptions C08_all_states_probed.
 
